@@ -18,6 +18,8 @@ CHECKS = {
          "TLC model check of timed Client.tla + trace validation of virtual-time executions of the real clients"),
  "C12": ("6", "same machinery as C11; the Schedule / NoRespAtBudget / NoTxAfterAccept properties of Client.tla are model-checked and every recorded Transmit must occur at start + T*(2^(i-1)-1) with identical bytes to the requested destination; NoResponse exactly at T*(2^n-1)",
          "TLC model check of timed Client.tla + trace validation of recorded transmissions"),
+ "C14": ("6", "Server.tla (read, decode, skip or spawn handler, Close, handlers outliving later reads) model-checked exhaustively for ExactlyOnce/PeerRule/OwnMessage/ReturnOnlyOnError/LoopSurvives, wrong designs (stop on parse error, shared read buffer) must fail; TLC -simulate behaviours and random scripts are executed on the real server4/server6 Serve loops over a scripted connection and every recorded execution is validated by TLC",
+         "TLC model check of Server.tla + TLC behaviours replayed into the real servers + trace validation"),
 }
 
 def main():
